@@ -19,7 +19,7 @@ _unops_list = [
     ('not', 'not_'),  # boolean not
     ('isNil',),  # nil/obj in sclang, not accessible as opcode
     ('notNil',),  # nil/obj in sclang, not accessible as opcode
-    ('bitNot', '__invert__', 'invert'),  # ~
+    ('bitNot', 'bitnot', '__invert__', 'invert'),  # ~
     ('abs', '__abs__'),  # abs()
     ('asFloat', 'as_float'),
     ('asInteger', 'as_int'),
